@@ -363,16 +363,20 @@ def coords (binv : Vec α → Vec α) (l u x g : Vec α) : List (BoxCoord α) :=
 def stepInfeasibleAt (c : BoxCoord α) : Bool :=
   c.act && (decide (c.x - eps + c.step < c.l) || decide (c.u < c.x + eps + c.step))
 
+/-- body of the step-length clipping loop for one coordinate:
+`if(d_i == 0) continue; la = (l_i - pt_i)/d_i; ua = (u_i - pt_i)/d_i;
+if(la > 0) alpha = min(alpha, la); if(ua > 0) alpha = min(alpha, ua)` (movable coordinates only) -/
+def clipStep (pt d : BoxCoord α → α) (alpha : α) (c : BoxCoord α) : α :=
+  if !c.act || Scalar.beq (d c) Scalar.zero then alpha else
+    let la := (c.l - pt c) / d c
+    let ua := (c.u - pt c) / d c
+    let alpha := if Scalar.zero < la then Scalar.min alpha la else alpha
+    if Scalar.zero < ua then Scalar.min alpha ua else alpha
+
 /-- the step-length clipping loop (used twice: from `x` along the Cauchy step, from the Cauchy point
-along `step - cauchy`): `alpha = 1; for active i with d_i != 0: la = (l_i - pt_i)/d_i; ua = (u_i - pt_i)/d_i;
-if(la > 0) alpha = min(alpha, la); if(ua > 0) alpha = min(alpha, ua)` -/
+along `step - cauchy`), started with `alpha = a0` (1 in the C++) -/
 def clip (pt d : BoxCoord α → α) (cs : List (BoxCoord α)) (a0 : α) : α :=
-  cs.foldl (fun alpha c =>
-    if !c.act || Scalar.beq (d c) Scalar.zero then alpha else
-      let la := (c.l - pt c) / d c
-      let ua := (c.u - pt c) / d c
-      let alpha := if Scalar.zero < la then Scalar.min alpha la else alpha
-      if Scalar.zero < ua then Scalar.min alpha ua else alpha) a0
+  cs.foldl (clipStep pt d) a0
 
 /-- `cauchy = p0 / inner_prod(p0, Bp0)` -/
 def cauchy (pBp : α) (c : BoxCoord α) : α := c.p0 / pBp
